@@ -6,6 +6,7 @@ import shutil
 import subprocess
 
 import common
+import jsoncorr
 import corpus
 import gen
 from props import shared
@@ -22,7 +23,9 @@ META = {
              "of range, never underflows its depth budget and terminates; the transcoder never reaches its unwrap()/take_parent() "
              "panics for any deserializer script and serializer failure schedule; the capture reader's index arithmetic is in "
              "range in every reachable state; the YAML chunker's offset arithmetic, split_off and from_utf8().unwrap() cannot "
-             "panic under libyaml's offset contract; argument parsing terminates; write_all ends in Ok or the writer's error. "
+             "panic under libyaml's offset contract; argument parsing terminates; write_all ends in Ok or the writer's error; the "
+             "modelled JSON reader and both JSON document loops, and both MessagePack document loops, end with a verdict for every "
+             "byte string. "
              "These models are tied to the code by the correspondences of C02/C03/C09/C11/C13/C18. Panics inside serde_json, "
              "serde_yaml, toml, rmp and libyaml, stack exhaustion and wall-clock hangs are runtime facts: they are searched for, "
              "not proved absent, by running every token sequence up to length 5/4/4 over each format's alphabet, structure-aware "
@@ -182,6 +185,8 @@ def run(outcome, tier, seed):
         outcome.extra["exhaustive"] = True
     if outcome.hooks_available:
         shared.msgpack_correspondence(outcome, tier, seed, oracle=False)
+    if not outcome.oracle_failures:
+        jsoncorr.correspondence(outcome, tier, seed)
     if outcome.oracle_failures:
         outcome.notes.append("mutation fuzz skipped: the token-sequence run already exhibits a failing input")
     else:
